@@ -567,10 +567,10 @@ class HttpParser(abc.ABC, Generic[_MsgT]):
 
                     payload_state = PayloadState.PAYLOAD_COMPLETE
                     data = b""
-                    if isinstance(
-                        underlying_exc,
-                        (InvalidHeader, TransferEncodingError, LineTooLong),
+                    if isinstance(underlying_exc, BadHttpMessage) and not isinstance(
+                        underlying_exc, ContentEncodingError
                     ):
+                        # The framing itself is broken (chunk sizes, trailers)
                         raise
 
                 self._payload_has_more_data = (
